@@ -140,6 +140,13 @@ type Harness struct {
 	// fresh child process, so that process-wide state cannot leak from one
 	// run into the next and "across separate processes" is taken literally.
 	Isolate bool
+	// ChildVerify: runs execute in-process (expensive per-process setup), but a
+	// violation is re-executed in a fresh child process before it is recorded,
+	// and what the child shows (class, message) is what is recorded and
+	// minimised: a finding that only exists because of state accumulated in the
+	// worker process would not replay. If the child is clean the finding is
+	// kept but marked Flaky.
+	ChildVerify bool
 	// Reference, when set, is invoked in reference mode (-reference): it
 	// reads a request on stdin and writes the answer on stdout. Harnesses use
 	// it to obtain results from a separately built instance in a separate
@@ -321,13 +328,35 @@ func Main(h *Harness) {
 			f.Count++
 			return
 		}
+		inProcessClass := v.Class
+		viaChild := h.Isolate
+		if h.ChildVerify && !h.Isolate {
+			cr := runChild(&childReq{Tier: c.Tier, Seed: c.Seed, RunIx: c.RunIx, Args: c.Args, EnumCase: enumCase, Replay: true, Choices: c.S.Recorded()})
+			if cr.Violation != nil {
+				v = cr.Violation
+				viaChild = true
+				if f, ok := found[v.Class]; ok {
+					f.Count++
+					found[inProcessClass] = f
+					return
+				}
+			} else {
+				v.Flaky = true
+				v.Message = "(seen in the worker process only; a fresh process executing the same choice vector is clean, so it depends on state accumulated over earlier runs)\n" + v.Message
+			}
+		}
 		f := &Found{Class: v.Class, Oracle: v.Oracle, Message: v.Message, Count: 1, Flaky: v.Flaky}
 		found[v.Class] = f
+		if inProcessClass != v.Class {
+			found[inProcessClass] = f
+		}
+		childExec = viaChild
 		rf := &ReplayFile{Property: h.Property, Seed: c.Seed, Run: c.RunIx, EnumCase: enumCase, Args: c.Args,
 			Choices: c.S.Recorded(), Oracle: v.Oracle, Class: v.Class, Message: v.Message}
 		if h.Isolate {
 			rf.Choices = r.Choices
 		}
+		defer func() { childExec = false }()
 		rf.OrigLen = len(rf.Choices)
 		if !knownSet[v.Class] && !h.NoInProcessMinimise && minBudget > 0 && !v.Flaky {
 			t0 := time.Now()
@@ -407,6 +436,9 @@ func Main(h *Harness) {
 	}
 	sort.Strings(classes)
 	for _, c := range classes {
+		if found[c].Class != c {
+			continue // alias: the class seen in-process before the child confirmed another one
+		}
 		rep.Found = append(rep.Found, *found[c])
 	}
 	if h.Info != nil {
@@ -447,8 +479,12 @@ func writeJSON(path string, v any) error {
 }
 
 // execVec runs the harness on a recorded vector.
+// childExec makes execVec go through child processes (set while a finding
+// confirmed in a child is minimised and traced).
+var childExec bool
+
 func execVec(h *Harness, rf *ReplayFile, tier string, trace bool) *Run {
-	if h.Isolate {
+	if h.Isolate || childExec {
 		return runChild(&childReq{Tier: tier, Trace: trace, Seed: rf.Seed, RunIx: rf.Run, Args: rf.Args, EnumCase: rf.EnumCase, Replay: true, Choices: rf.Choices})
 	}
 	c := &Ctx{S: choice.Replay(rf.Choices), Tier: tier, Trace: trace, Seed: rf.Seed, RunIx: rf.Run, Args: rf.Args}
